@@ -58,7 +58,10 @@ CHECKS = {
             'Thousands (quick) / >100k (thorough) generated rule lists mixing the three rule kinds '
             'with overlapping matches, multi-character consumption, per-rule protection, all '
             'protection schemes and unknown-character policies, compared chunk by chunk with a '
-            '60-line model; every built-in character singly under 60 option sets.',
+            '60-line model; every built-in character singly under 60 option sets; the partial '
+            'encoder against a token-copy model (default keep characters, and kept blanks); call '
+            'histories through the cached module-level helper and through edits of the list '
+            'returned by get_builtin_conversion_rules().',
             'Model interprets plain-data rule descriptors; replace/unihex outputs judged by '
             'predicate; no empty-match regex rules.',
             'DESIGN.md 5 C04'),
@@ -90,8 +93,9 @@ CHECKS = {
     'C07': ('exploration',
             'template sweep over every known macro/environment name x option sets, exhaustive '
             'token soups, grammar documents; oracle = returns str, no exception, bounded reads',
-            'Every name of the default walker and latex2text databases (read at run time) in ~24 '
-            'macro / 17 environment call shapes, crossed with a pairwise-covering (quick) or the '
+            'Every name of the default walker and latex2text databases (read at run time) in ~32 '
+            'macro / 17 environment call shapes (eight of them varying what the arguments contain: '
+            'digits, punctuation, non-ASCII, accent macros, blanks, nested groups), crossed with a pairwise-covering (quick) or the '
             'full 240-element (thorough) option product; plus all soups <= 2/3 tokens and '
             'generated documents; thorough adds 16 atheris campaigns (raw text and token-level byte '
             'decodings) with the oracle inside the target.',
@@ -118,7 +122,9 @@ CHECKS = {
             'tolerant) and hundreds (quick) / thousands (thorough) of random histories over a '
             '32-document pool x 3 context recipes sharing one database object per recipe and the '
             'global argument-parser cache; every step equals the fresh-interpreter result and '
-            'leaves the database snapshot unchanged.',
+            'leaves the database snapshot unchanged; ordered pairs over ~70 documents chosen to '
+            'leave a parser in the middle of something (unknown names, aborted arguments of every '
+            'parser class, verbatim arguments cut at nesting depth 1-3).',
             'Finite document pool covering every argument parser class the library ships (state '
             'leaking only through other inputs is not seen); freeze() flag excluded from the '
             'snapshot.',
@@ -130,7 +136,9 @@ CHECKS = {
             'with a 60-line reference on accept/reject, formula spans, display types, delimiters '
             'and per-character modes; thousands of generated documents nesting math / text / '
             'ensuremath / environments to depth 5 have every node\'s recorded mode equal to the '
-            'mode implied by the generating AST.',
+            'mode implied by the generating AST; a table sweep of every math environment and '
+            'text-mode macro of the default database in six hosts, with blanks between \\begin / '
+            '\\end and the name, including the mode of what follows the environment.',
             'Reference parser and AST mode rules transcribe the documented behaviour (expected '
             'closing delimiter first, longest delimiter otherwise; argument and body deltas).',
             'DESIGN.md 5 C10'),
@@ -140,7 +148,9 @@ CHECKS = {
             'peek-pure, rewind)',
             'All strings <= 3 tokens over the significant alphabet under 24 (quick) / ~200 '
             '(thorough, pairwise) parsing-state configurations, strict and tolerant reader, plus '
-            'random 60-token strings; only the public reader API is driven.',
+            'random 60-token strings; only the public reader API is driven; reads interleaved with '
+            'peeks under six kinds of other parsing states; the token-list reader under the same '
+            'protocol.',
             'Token equality on public fields; a LatexWalkerTokenParseError legitimately ends a '
             'strict reading.',
             'DESIGN.md 5 C11'),
@@ -164,7 +174,8 @@ CHECKS = {
             'under 2 rule sets x 5 protections x 5 policies: output parses strictly, braces '
             'balance, no comment / environment / foreign math node, ASCII-only where promised, '
             'ValueError exactly where the tables say; inputs with unknown characters also with the '
-            'unknown_char_warning option left at its default.',
+            'unknown_char_warning option left at its default, and a quarter of the default-rule-set '
+            'inputs also through the module-level shorthand after a call with other options.',
             'Default walker context for the strict parse; 13 combining characters of the '
             'unicode-xml table are listed known findings and excluded by construction.',
             'DESIGN.md 5 C13'),
@@ -197,7 +208,9 @@ CHECKS = {
             'len, failure parity) with the equivalent new-parser formulation; all argument strings '
             'over {*,[,{} up to length 4 through 8-10 spellings for macros and environments on '
             'every present/absent pattern with and without whitespace, plus the documented legacy '
-            'nodeoptarg/nodeargs views.',
+            'nodeoptarg/nodeargs views; get_latex_expression with strict_braces None/False '
+            '(documented empty result = failing), explicit parsing_state=, tolerant walkers, call '
+            'strings with a math delimiter where a mandatory argument is expected.',
             'Documented legacy post-processing (nodeargd=None from get_latex_expression, math mode '
             'assumed open for stop_upon_closing_mathmode) is part of the oracle.',
             'DESIGN.md 5 C16'),
@@ -207,7 +220,10 @@ CHECKS = {
             'All chains of <= 3 (quick) / <= 4 (thorough) steps over 13 math-related steps plus '
             'hundreds / thousands of random chains of 1-5 sub_context calls over all field groups; for each chain every string <= 3/4 tokens over an alphabet containing '
             'every configured delimiter is tokenized (strict + tolerant) and parsed under the '
-            'derived and the freshly constructed state; parents are snapshot before and after.',
+            'derived and the freshly constructed state; parents are snapshot before and after; '
+            'each derived state\'s fields equal those of a state constructed from the parent\'s '
+            'fields with the requested ones replaced; exhaustive families per field group incl. '
+            'the context database.',
             'Only public API is used; equality of token tuples and canonical tree dumps.',
             'DESIGN.md 5 C17'),
     'C18': ('exploration',
@@ -216,8 +232,10 @@ CHECKS = {
             'All argument-like token lists <= 4/5 tokens over an 11-token alphabet (separators in '
             'every position, protected separators in groups/macros/comments) under up to 60 '
             'split_at_chars option sets, all lists <= 4/5 tokens for split_at_node (32 option sets) '
-            'and <= 5/6 tokens for parse_keyval_content (8 policies), plus random lists with None '
-            'entries.',
+            'and <= 5/6 tokens for parse_keyval_content (20 option sets), plus random lists with None '
+            'entries; the argument views (get_content_nodelist with the documented double-group '
+            'rule, parse_content_as_keyval), filter() under 24 flag sets and get_content_as_chars() '
+            'on all lists <= 4/5 tokens over two further alphabets.',
             'Top-level chars spans come from the strict parse; max_split with keep_empty=False is '
             'judged by a validity predicate, by the letter of the statement.',
             'DESIGN.md 5 C18'),
